@@ -81,6 +81,7 @@ inductive AV where
   | key (k : Key)                     -- key string handed to `@access` / `@access_assign`
   | native                            -- a native function (e.g. a `#[koto_method]` wrapper)
   | builtin                           -- computed by a built-in arm (not modelled here)
+  | keys (ks : List Key)              -- a tuple of key strings
   | shown (pre : Option TyName)       -- default map rendering `[Type ]{…}`
   | ty (t : TyName)                   -- a type string
   deriving DecidableEq, Repr, Inhabited
@@ -144,6 +145,7 @@ def Beh.run (b : Beh) (self : AV) : CallRes := b.runAt 0 self
 /-- value stored under a metakey -/
 inductive MV where
   | fn (b : Beh)
+  | native (v : RV)                               -- a native (Rust) function returning `v`
   | nonCallable                                   -- e.g. a number
   | chain (mids : List Name) (fin : Option Beh)   -- a callable map whose `@call` is the next one …
   deriving DecidableEq, Repr, Inhabited
@@ -293,6 +295,9 @@ A callable map (`@call`) replaces the instance by itself (vm.rs call_callable, M
 def invokeAt (i : Nat) (tag : Name) (key : MKey) (mv : MV) (self : AV) (args : List AV) : List Ev × CallRes :=
   match mv with
   | .fn b => ([⟨tag, .mk key, self, args⟩], b.runAt i self)
+  -- a native function is called like a Koto function: same instance, same arguments, its value is
+  -- the result (no frame is pushed for it — see findings F-C17-5)
+  | .native v => ([⟨tag, .mk key, self, args⟩], .ret (v.toAV self))
   | .nonCallable => ([], .notCallable)
   | .chain mids fin =>
     match mids.getLast?, fin with
@@ -1188,6 +1193,36 @@ def derivedAccessAssign (d : DerivedD) (k : Key) : Out :=
         if ks.contains k then ⟨ov ++ [d.ev .setFallback [.key k, .int 5]], .ok .builtin⟩
         else ⟨ov ++ [d.ev .setFallback [.key k, .int 5]], .err .hostErr⟩
       | Option.none => ⟨ov, .err .unexpectedKey⟩
+
+/-! ### further entry points of the same dispatch -/
+
+/-- `x((7,)...)`: packed call arguments are unpacked once, then the call proceeds as `x(7)` -/
+def callPacked (o : Opd) : Out := callOp o
+
+/-- `KotoVm::run_write_op(WriteOp::IndexAssign, x, i, 5)` (host API): the same dispatch as `x[i] = 5` -/
+def apiIndexAssign (o : Opd) (i : IdxK) : Out := indexAssign o i
+
+/-- `match x` with the arm `(others..., last) then last` on a map object with `@size` (returning
+`n ≥ 1`) and `@index`: the arm's size check, the slice `others...` (`@size`, `@index 0..n-1`), then
+`last` = `@index (n - 1)` — a trailing position counts from the end given by `@size`, as for host
+objects. Other operands are not modelled (`diverge`). -/
+def matchLast (o : Opd) : Out :=
+  match o with
+  | .map m =>
+    match m.metaGet .Size, m.metaGet .Index with
+    | some (ts, .fn (.ret (.int n))), some (ti, mvI) =>
+      let sz : Ev := ⟨ts, .mk .Size, m.av, []⟩
+      match invoke ti .Index mvI m.av [.prim .range] with
+      | (t1, .ret _) =>
+        let (t2, r2) := invokeAt 1 ti .Index mvI m.av [.int (n - 1)]
+        ⟨[sz, sz] ++ t1 ++ [sz] ++ t2, r2.pass⟩
+      | (t1, r) => ⟨[sz, sz] ++ t1, r.pass⟩
+    | _, _ => ⟨[], .err .diverge⟩
+  | _ => ⟨[], .err .diverge⟩
+
+/-- the data keys of a map literal, whatever metakeys the same literal defines and in whatever
+order: entries of a literal are data entries, inserting them calls nothing -/
+def literalKeys (l : Layer) : Out := ⟨[], .ok (.keys l.data)⟩
 
 /-! ### `with_meta` -/
 
